@@ -3,12 +3,13 @@
 Proof (Lean 4):
   lean/IstioModel/C19/Spec.lean      specDecision - the documented cascade
   lean/IstioModel/C19/Model.lean     model (abstract row) and injectRequiredC (concrete pods/configs, selector matching)
-  lean/IstioModel/C19/Theorems.lean  enumeration complete, model = spec, precedence clauses of the spec, concrete refines abstract,
-                                     monitors sound and complete (preservesB_iff, idempotentB_iff)
+  lean/IstioModel/C19/Theorems.lean  enumeration complete, model = spec, precedence clauses of the spec, concrete refines abstract
+  lean/IstioModel/C19/MonitorTheorems.lean  monitors sound and complete (preservesB_iff, idempotentB_iff, judge_*_sound/complete)
+  lean/IstioModel/C19/Lemmas.lean    helper lemmas (not counted)
   lean/IstioModel/C19/GenTie.lean    inject_table_eq_spec / model_eq_impl / decision_deterministic / precedence clauses about the
                                      table of the REAL injectRequired, regenerated on every run (T-gen, exhaustive, decide +kernel)
 Tie:
-  T-gen  harness `table`: real injectRequired on all 1200 abstract rows x 7 realisation variants -> Generated/C19Table.lean
+  T-gen  harness `table`: real injectRequired on all 1200 abstract rows x 9 realisation variants -> Generated/C19Table.lean
   T-diff stream `decide`: real injectRequired + real LabelSelectorAsSelector/Matches on random concrete pods/configs vs Lean model
   T-mon  stream `inject`: the real webhook path (Webhook.inject -> injectRequired, injectPod) once and twice on every loadable
          fixture of pkg/kube/inject/testdata/inject and on generated pods, reduced pods judged by the Lean monitors
@@ -20,6 +21,7 @@ import os
 
 THEOREMS = ["IstioModel.C19.Theorems", "IstioModel.C19.MonitorTheorems", "IstioModel.C19.GenTie"]
 GEN = "IstioModel/Generated/C19Table.lean"
+NVARIANTS = 9
 
 
 def _case_slices(lines):
@@ -122,8 +124,8 @@ def gen_table(ctx):
             ctx.note_case("table " + l, True, sample)
         ctx.count("table.rows", 1200)
         ctx.count("table.rows.inject", n_inj)
-        ctx.count("table.variants", 7)
-        ctx.evaluations += 1200 * 6  # the six other realisation variants of every row
+        ctx.count("table.variants", NVARIANTS)
+        ctx.evaluations += 1200 * (NVARIANTS - 1)  # the other realisation variants of every row
     return True
 
 
@@ -181,8 +183,11 @@ def inject_file(ctx, tag, ops):
                       "lean_monitor": lean_v, "go_oracle": go_v}
         ctx.note_case(canon, status == "injected", sample)
         lt, gt = lean_v.split(), go_v.split()
-        known_class = gt[:2] == ["FAIL", "idempotent-podports-user-proxy-ports"]  # oracle's exact classification of finding F10e
-        if lt[:2] != gt[:2] and not (known_class and lt[:2] == ["FAIL", "idempotent"]):
+        # the oracle's exact classification of the known findings F10e / F10g (the Lean monitor says "idempotent <component>")
+        known_class = gt[0] == "FAIL" and gt[1] in ("idempotent-podports-user-proxy-ports", "idempotent-sidecar-env-order-cluster-vars")
+        # clauses only the Go oracle can see (labels / env values are digests in the reduced pods)
+        go_only = gt[0] == "FAIL" and gt[1] in ("network-label", "network-env") and lt[:2] == ["OK", "injected"]
+        if lt[:2] != gt[:2] and not (known_class and lt[:2] == ["FAIL", "idempotent"]) and not go_only:
             ctx.tie_broken("monitor-vs-oracle:inject",
                            "the Lean monitor and the Go oracle judge the same run differently: lean=%r oracle=%r" % (lean_v, go_v),
                            {"stream": "inject", "ops": c})
@@ -231,15 +236,17 @@ def inject_stream(ctx, n):
 
 def run(ctx):
     ctx.rule = ("table: all 1200 rows of hostNetwork x nsIgnored x label{absent,true,false,'',other} x annotation{same} x neverMatches x "
-                "alwaysMatches x policy{enabled,disabled,other}, each under 7 realisation variants (exhaustive); "
+                "alwaysMatches x policy{enabled,disabled,other}, each under 9 realisation variants (exhaustive); "
                 "decide: random concrete pods (0-4 labels, inject label/annotation from 12 values, 12 namespaces, hostNetwork) and configs "
                 "(10 policy strings, 0-2 never / always selectors with matchLabels and In/NotIn/Exists/DoesNotExist/invalid expressions, "
-                "invalid keys/values, empty selectors); inject: every fixture document of pkg/kube/inject/testdata/inject through the webhook "
-                "(7 injector settings) and through IntoObject, plus generated pods (1-3 containers, probes, ports, init containers, native "
+                "invalid keys/values, empty selectors), each evaluated again after randomising fields outside the listed inputs (all DNS policies, "
+                "hostPID/IPC, name, service account, templates annotation, own istio-proxy container); inject: every fixture document of pkg/kube/inject/testdata/inject through the webhook "
+                "(8 renderings; webhook Config with policy disabled / never+always selectors; inject URL path; API-server defaulting between passes) "
+                "and through IntoObject, plus generated pods in ignored and ordinary namespaces (1-3 containers, probes, ports, init containers, native "
                 "sidecars, volumes, user istio-proxy / istio-init, overrides annotation, 20 steering annotations), each injected once and "
                 "twice; distinct = hash of (ops, implementation outputs / reduced pods); non-trivial = pod was actually injected")
     ctx.assumptions = [
-        "the abstraction of injectRequired's inputs to the 1200-row domain is adequate: checked by 7 realisation variants of every row "
+        "the abstraction of injectRequired's inputs to the 1200-row domain is adequate: checked by 9 realisation variants of every row "
         "(decision_deterministic) and by the random concrete stream `decide` against the concrete model, which provably factors through the row",
         "Kubernetes label-selector semantics (LabelSelectorAsSelector, Requirement.Matches, label key/value syntax) are modelled from "
         "k8s.io/apimachinery v0.36.1 and tied by the `decide` stream only",
@@ -256,7 +263,7 @@ def run(ctx):
     if fails:
         report_table_fails(ctx, fails)
     if fails is not None:
-        ctx.count("oracle.table.rows_x_variants", 1200 * 7)
+        ctx.count("oracle.table.rows_x_variants", 1200 * NVARIANTS)
     if not have_table:
         return
     ctx.exhaustive = True
@@ -324,25 +331,30 @@ def replay(ctx, path):
 
 
 MANIFEST = {
-    "level_text": ("Lean 4 proof. Decision: the real injectRequired is run on its complete abstract input domain (1200 rows x 7 realisation "
-                   "variants) on every check; Lean proves by kernel evaluation that this table equals the documented cascade "
-                   "(inject_table_eq_spec) and the branch-for-branch model (model_eq_impl), that it does not depend on anything outside the "
-                   "listed inputs (decision_deterministic), and derives every precedence clause for all rows (host network, ignored "
-                   "namespaces, label over annotation over never- over always-selector over policy; illegal policy disables; unrecognised "
-                   "label ignores the annotation); the concrete model incl. Kubernetes label-selector matching provably factors through the "
-                   "table (concrete_eq_table) and is tied by a differential stream. Idempotence / preservation: the real webhook path "
-                   "(Webhook.inject) and kube-inject path (IntoObject) are run once and twice on every pod fixture of the repository under 7 "
-                   "injector settings and on generated pods; Lean monitors proved sound and complete (preservesB_iff, idempotentB_iff, "
-                   "judge_injected_sound/complete) judge the reduced pods, a Go oracle judges the full objects. Three defects found this way "
-                   "(re-injection dropped sidecar overrides / flipped the iptables uid; duplicate-port-number containers lost a port) are "
-                   "fixed in /repo and pinned by corpus witnesses."),
+    "level_text": ("Lean 4 proof. Decision: the real injectRequired is run on its complete abstract input domain (1200 rows x 9 realisation "
+                   "variants, incl. all DNS policies with host networking) on every check; Lean proves by kernel evaluation that this table "
+                   "equals the documented cascade (inject_table_eq_spec) and the branch-for-branch model (model_eq_impl), that it does not "
+                   "depend on anything outside the listed inputs (decision_deterministic), derives every precedence clause for all rows, and "
+                   "proves where the code deviates from the literal statement (full_statement_witness: garbage label shadows the annotation, "
+                   "illegal policy disables; full_statement_partial elsewhere); the concrete model incl. Kubernetes label-selector matching "
+                   "provably factors through the table (concrete_eq_table) and is tied by a differential stream. The two real call sites are "
+                   "judged too: every admission through Webhook.inject (pod namespace / request-namespace fallback, webhook Config with policy "
+                   "disabled and never/always selectors, ignored namespaces) and through IntoObject must be skipped iff the documented "
+                   "decision says so (judge_decision_checked), refusals must be predicted, bad patches fail. Idempotence / preservation: "
+                   "both paths are run once and twice on every pod fixture under 8 renderings x webhook-config / inject-path / "
+                   "API-defaulting variants and on generated pods; Lean monitors proved sound and complete (preservesB_iff, idempotentB_iff, "
+                   "judge_*_sound/complete) judge the reduced pods, a Go oracle judges the full objects. Six defects found this way were "
+                   "fixed in /repo (F10a-d, F10f) or are registered as known (F10e, F10g)."),
     "level_note": ("Trusted: Lean kernel + {propext, Classical.choice, Quot.sound}; the harness' realisation of abstract rows as real objects "
                    "and its reduction of pods; pkg/kube/inject/zz_verif_c19.go; Kubernetes selector semantics modelled from apimachinery "
-                   "v0.36.1 and tied by differential testing only. PARTIAL for the second half of the statement: template rendering, "
-                   "strategic merge, overrides re-application and post-processing are observed through verified monitors on fixtures and "
-                   "generated pods (quick ~2400 pods, thorough ~31000), not proved for all pods. Assumes status/overrides annotations were "
-                   "written by the injector under the same injector configuration."),
+                   "v0.36.1 and tied by differential testing only; a hand-written API-server defaulter. PARTIAL for the second half of the "
+                   "statement: template rendering, strategic merge, overrides re-application and post-processing are observed through "
+                   "verified monitors on fixtures and generated pods (quick ~2600 pods, thorough ~35000), not proved for all pods. Known "
+                   "violations inside the quantifier: F10e (user istio-proxy with ports: ISTIO_META_POD_PORTS changes on re-injection), F10g "
+                   "(cluster/network variables: sidecar env order changes on re-injection). Assumes status/overrides annotations were written "
+                   "by the injector under the same injector configuration; two templates that both define istio-proxy are not combined. Not "
+                   "exercised: OpenShift UID handling, DetectNativeSidecar from node versions, ProxyConfig CRs."),
     "technique": ("Lean 4: exhaustive kernel-checked decision table regenerated from the real function (T-gen) + differential concrete model "
-                  "(T-diff) + verified monitors on the real webhook and kube-inject paths (T-mon)"),
+                  "(T-diff) + verified monitors and decision judgement on the real webhook and kube-inject paths (T-mon)"),
     "design_ref": "DESIGN.md section 5 C19",
 }
